@@ -709,3 +709,153 @@ class del_identity(_Write):
             (not any(x[0] == 'execute' for x in w.log) and cx.run.ghost['di']['names'] == [] and cx.run.ghost['di']['seq'] is None)
         out['nothing_committed_on_failure'] = ('commit',) not in w.log
         return out
+
+
+# ----------------------------------------------------------------------------- the Mapping views: every query is scoped to its owner
+class QCursor:
+    def __init__(self, q, ncols):
+        self.q, self.ncols = q, ncols
+        self.fetched = 0
+
+    def getattr_(self, it, name, node):
+        if name == 'fetchone':
+            def fetchone(it_):
+                self.fetched += 1
+                # ASSUMED SQL fact: an aggregate query (count(*)) returns exactly one row
+                aggregate = 'count(' in self.q['sql'].lower()
+                k = 'row' if aggregate else it_.run.choose([('row', True), ('no row', True)], 'fetchone')
+                if k == 'no row':
+                    self.q['rows'].append(None)
+                    return None
+                row = tuple(Col('col', f'row{len(self.q["rows"])}.col{j}') for j in range(self.ncols))
+                self.q['rows'].append(row)
+                return row
+            return _M(fetchone)
+        if name == 'close':
+            def close(it_):
+                self.q['closed'] = self.q.get('closed', 0) + 1
+            return _M(close)
+        raise Unsupported(f'cursor.{name}')
+
+
+class QConn:
+    def __init__(self):
+        self.queries = []
+
+    def getattr_(self, it, name, node):
+        if name == 'execute':
+            def execute(it_, sql, params=()):
+                if not sql.lstrip().upper().startswith('SELECT'):
+                    raise Unsupported('a view executed a write statement')
+                cols = sql[len('SELECT'):sql.upper().index(' FROM ')].split(',')
+                q = dict(sql=sql, params=tuple(params), rows=[])
+                self.queries.append(q)
+                return QCursor(q, len(cols))
+            return _M(execute)
+        raise Unsupported(f'conn.{name}')
+
+
+@contract
+class from_bytes_col(Contract):
+    fn = Name.from_bytes
+    assumed = True
+
+    def use_contract_at(c, it, args, kwargs):
+        return isinstance(args[0], Opaque) and args[0].typ == 'col'
+
+    def result(c, cx, buf):
+        return NameVal(('decoded', buf.label), 0, 'formal')
+
+
+class Col(Opaque):
+    """a column value of a result row; `col != 0` (the is_default flag) is some boolean"""
+
+    def compare(self, it, op, other, node):
+        import ast
+        if isinstance(other, int) and other == 0:
+            b = it.run.fresh_bool('flag_nonzero')
+            return b if isinstance(op, ast.NotEq) else Not(b)
+        raise Unsupported('comparison of a column value')
+
+
+def _view(fn_, owner_cls, kind, doc_):
+    """kind: 'len' | 'get' | 'has_default' | 'default'"""
+    class _C(Contract):
+        fn = fn_
+        props = ('C15',)
+        doc = doc_
+        raises = {KeyError: lambda cx, **p: True, TypeError: lambda cx, **p: True} if kind in ('get', 'default') else {}
+
+        def setup(self, cx):
+            conn = QConn()
+            rid = Opaque('row_id', 'owner row id')
+            oname = NameVal('owner name', 0, 'formal')
+            pib = SymObj(ks.KeychainSqlite3, dict(conn=conn))
+            d = dict(pib=pib, row_id=rid, _name=oname, is_default=False)
+            if owner_cls is ks.Key:
+                d.update(_identity=NameVal('identity of the key', 0, 'formal'), _key_bits=None)
+            cx.run.ghost['vw'] = dict(conn=conn, rid=rid, oname=oname)
+            p = dict(self=SymObj(owner_cls, d))
+            if kind == 'get':
+                p['name'] = NameVal('requested name')
+            return p
+
+        def _scoped(c, cx):
+            g = cx.run.ghost['vw']
+            qs = g['conn'].queries
+            ok = len(qs) == 1
+            out = {'exactly_one_query': ok}
+            if ok:
+                out['query_is_scoped_to_the_owner'] = len(qs[0]['params']) >= 1 and qs[0]['params'][-1] is g['rid']
+            return out, (qs[0] if ok else None)
+
+        def post(c, cx, result, **p):
+            g = cx.run.ghost['vw']
+            out, q = c._scoped(cx)
+            if q is None:
+                return out
+            rows = q['rows']
+            if kind == 'len':
+                out['length_is_the_count_of_the_owners_rows'] = len(rows) == 1 and rows[0] is not None and result is rows[0][0]
+            elif kind == 'has_default':
+                out['answer_is_whether_a_default_row_of_the_owner_exists'] = len(rows) == 1 and result is (rows[0] is not None)
+            else:
+                out['found_row_returned'] = len(rows) == 1 and rows[0] is not None and isinstance(result, SymObj)
+                if kind == 'get':
+                    out['looked_up_by_the_requested_name'] = len(q['params']) == 2 and isinstance(q['params'][0], NameVal) and \
+                        q['params'][0].ident == p['name'].ident and q['params'][0].form == 'bytes'
+                if isinstance(result, SymObj) and rows and rows[0] is not None:
+                    row = rows[0]
+                    if owner_cls is ks.Identity:
+                        out['key_belongs_to_this_identity'] = result.cls is ks.Key and result.d.get('_identity') is g['oname'] and \
+                            result.d.get('row_id') is row[0] and result.d.get('_key_bits') is row[2]
+                    else:
+                        out['certificate_belongs_to_this_key'] = result.cls is ks.Certificate and result.d.get('_key') is g['oname'] and \
+                            result.d.get('id') is row[0] and result.d.get('_name') is row[1] and result.d.get('_data') is row[2]
+            return out
+
+        def xpost(c, cx, exc, **p):
+            out, q = c._scoped(cx)
+            if q is not None and exc.cls is KeyError:
+                out['keyerror_only_without_a_matching_row_of_the_owner'] = q['rows'] == [None]
+            elif q is not None:
+                out['no_other_error'] = False
+            return out
+    _C.__name__ = f'view_{owner_cls.__name__}_{fn_.__name__}'
+    return contract(_C)
+
+
+_view(ks.Identity.__len__, ks.Identity, 'len', 'Identity.__len__: one query counting the keys of exactly this identity (scoped by its row id)')
+_view(ks.Identity.__getitem__, ks.Identity, 'get',
+      'Identity.__getitem__(name): one query for the key of that name AMONG THIS IDENTITY\'s keys (scoped by its row id); KeyError without '
+      'such a row; the Key returned carries this identity\'s name, the row id and the key bits of the row')
+_view(ks.Identity.has_default_key, ks.Identity, 'has_default', 'Identity.has_default_key: whether a default key row of exactly this identity exists')
+_view(ks.Identity.default_key, ks.Identity, 'default',
+      'Identity.default_key: the default key row of exactly this identity (KeyError without one), returned as a Key of this identity')
+_view(ks.Key.__len__, ks.Key, 'len', 'Key.__len__: one query counting the certificates of exactly this key (scoped by its row id)')
+_view(ks.Key.__getitem__, ks.Key, 'get',
+      'Key.__getitem__(name): one query for the certificate of that name AMONG THIS KEY\'s certificates; KeyError without such a row; the '
+      'Certificate returned carries this key\'s name and the row\'s id, name and data')
+_view(ks.Key.has_default_cert, ks.Key, 'has_default', 'Key.has_default_cert: whether a default certificate row of exactly this key exists')
+_view(ks.Key.default_cert, ks.Key, 'default',
+      'Key.default_cert: the default certificate row of exactly this key (KeyError without one), returned as a Certificate of this key')
